@@ -674,12 +674,30 @@ func checkC28(c *Ctx, r *Report) {
 		if f.Parent() != nil {
 			continue
 		}
-		var sel *ssa.Select
+		// the wait: a blocking select in the method, or the call of a helper of the package that contains one
+		var sel ssa.Instruction
 		allInstrs(f, func(i ssa.Instruction) {
 			if s, ok := i.(*ssa.Select); ok && s.Blocking {
 				sel = s
 			}
 		})
+		if sel == nil {
+			allInstrs(f, func(i ssa.Instruction) {
+				call, ok := i.(*ssa.Call)
+				if !ok {
+					return
+				}
+				g := staticCallee(&call.Call)
+				if g == nil || fnPkgPath(g) != pkClient || g.Blocks == nil || m.snSenders[g] {
+					return
+				}
+				allInstrs(g, func(j ssa.Instruction) {
+					if s2, ok := j.(*ssa.Select); ok && s2.Blocking {
+						sel = i
+					}
+				})
+			})
+		}
 		if sel == nil {
 			continue
 		}
@@ -709,7 +727,7 @@ func checkC28(c *Ctx, r *Report) {
 					}
 					r.fn(f)
 					key := fnKey(f) + ":failed-send-completes"
-					reach, _ := pathExists(f, errBlk.Instrs[0], func(x ssa.Instruction) bool { return x == ssa.Instruction(sel) }, func(x ssa.Instruction) bool {
+					reach, _ := pathExists(f, errBlk.Instrs[0], func(x ssa.Instruction) bool { return x == sel }, func(x ssa.Instruction) bool {
 						if cj, ok := x.(ssa.CallInstruction); ok {
 							nm := ""
 							if cj.Common().IsInvoke() {
